@@ -272,6 +272,12 @@ func (l *RWMutex) acquire(write bool) {
 			panic(Deadlock{msg})
 		}
 	}
+	mon.Unlock()
+	// serialised mode: ask the scheduler before every acquisition; it grants only when the lock is free
+	if s, sg := curSerial(g); sg != nil {
+		s.point(sg, l, write)
+	}
+	mon.Lock()
 	for _, h := range heldBy[g] {
 		if h.l != l {
 			if order[h.l] == nil {
@@ -404,3 +410,177 @@ func (r *rlocker) Unlock() { (*RWMutex)(r).RUnlock() }
 
 // RLocker mirrors sync.RWMutex.RLocker.
 func (l *RWMutex) RLocker() Locker { return (*rlocker)(l) }
+
+// ---------------------------------------------------------------------------------------------------------
+// Serialised mode: controlled goroutines run one at a time and yield to a scheduler before every lock
+// acquisition (and at explicit Point calls). The scheduler follows a given choice prefix and then always takes
+// the first enabled goroutine, and reports how many goroutines were enabled at every decision, so a driver can
+// enumerate all schedules by stateless depth-first search. Lock availability is taken from the monitor's own
+// bookkeeping, so a goroutine that asks for a held lock is simply not schedulable, and "nobody schedulable while
+// somebody is unfinished" is a deadlock verdict without any timeout.
+
+type sgor struct {
+	rank   int
+	grant  chan struct{}
+	atPt   bool
+	done   bool
+	want   *RWMutex
+	wwrite bool
+}
+
+type serial struct {
+	gors map[uint64]*sgor
+	list []*sgor
+	wake chan struct{}
+	dead bool
+}
+
+var (
+	serMu sync.Mutex
+	ser   *serial
+)
+
+func curSerial(g uint64) (*serial, *sgor) {
+	serMu.Lock()
+	defer serMu.Unlock()
+	if ser == nil {
+		return nil, nil
+	}
+	return ser, ser.gors[g]
+}
+
+func (s *serial) point(sg *sgor, l *RWMutex, write bool) {
+	sg.want, sg.wwrite, sg.atPt = l, write, true
+	s.wake <- struct{}{}
+	<-sg.grant
+	sg.want = nil
+	if s.dead {
+		panic(Deadlock{fmt.Sprintf("deadlock: no goroutine can be scheduled; goroutine #%d is waiting for %s", sg.rank, lname(l))})
+	}
+}
+
+// Point yields to the scheduler (no-op outside serialised mode).
+func Point() {
+	if s, sg := curSerial(GID()); sg != nil {
+		s.point(sg, nil, false)
+	}
+}
+
+func available(l *RWMutex, write bool, g uint64) bool {
+	mon.Lock()
+	defer mon.Unlock()
+	if l == nil {
+		return true
+	}
+	if _, w := writer[l]; w {
+		return false
+	}
+	if write && len(readers[l]) > 0 {
+		return false
+	}
+	return true
+}
+
+// SerialRun runs fns as controlled goroutines under the schedule `prefix` (index into the list of enabled
+// goroutines at each decision, ordered by rank; beyond the prefix the first enabled one is taken). It returns
+// the choices made, the number of enabled goroutines at each decision and whether the run deadlocked.
+func SerialRun(prefix []int, fns ...func()) (trace, widths []int, deadlocked bool) {
+	s := &serial{gors: map[uint64]*sgor{}, wake: make(chan struct{})}
+	gids := make([]uint64, len(fns))
+	ready := make(chan int)
+	for i, fn := range fns {
+		sg := &sgor{rank: i, grant: make(chan struct{})}
+		s.list = append(s.list, sg)
+		go func(i int, fn func(), sg *sgor) {
+			gids[i] = GID()
+			ready <- i
+			<-sg.grant // registration barrier
+			defer func() {
+				if r := recover(); r != nil {
+					if _, ok := r.(Deadlock); !ok {
+						panic(r)
+					}
+				}
+				sg.done, sg.atPt = true, false
+				s.wake <- struct{}{}
+			}()
+			if s.dead {
+				return
+			}
+			// the first decision about this goroutine is taken at its start
+			sg.atPt = true
+			s.wake <- struct{}{}
+			<-sg.grant
+			if s.dead {
+				return
+			}
+			fn()
+		}(i, fn, sg)
+	}
+	for range fns {
+		<-ready
+	}
+	for i, sg := range s.list {
+		s.gors[gids[i]] = sg
+	}
+	serMu.Lock()
+	ser = s
+	serMu.Unlock()
+	defer func() {
+		serMu.Lock()
+		ser = nil
+		serMu.Unlock()
+	}()
+	// let every goroutine reach its start point, one at a time
+	for _, sg := range s.list {
+		sg.grant <- struct{}{}
+		<-s.wake
+	}
+	for {
+		var enabled []*sgor
+		unfinished := 0
+		for i, sg := range s.list {
+			if sg.done {
+				continue
+			}
+			unfinished++
+			if sg.atPt && available(sg.want, sg.wwrite, gids[i]) {
+				enabled = append(enabled, sg)
+			}
+		}
+		if unfinished == 0 {
+			return trace, widths, deadlocked
+		}
+		if len(enabled) == 0 {
+			deadlocked = true
+			s.dead = true
+			var waits []string
+			for _, sg := range s.list {
+				if !sg.done && sg.want != nil {
+					waits = append(waits, fmt.Sprintf("#%d wants %s (%s)", sg.rank, lname(sg.want), mode(sg.wwrite)))
+				}
+			}
+			mon.Lock()
+			report(fmt.Sprintf("deadlock under schedule %v: %v", trace, waits))
+			mon.Unlock()
+			for _, sg := range s.list {
+				if !sg.done {
+					sg.atPt = false
+					sg.grant <- struct{}{}
+					<-s.wake
+				}
+			}
+			return trace, widths, true
+		}
+		choice := 0
+		if len(trace) < len(prefix) && prefix[len(trace)] < len(enabled) {
+			choice = prefix[len(trace)]
+		}
+		trace = append(trace, choice)
+		widths = append(widths, len(enabled))
+		sg := enabled[choice]
+		sg.atPt = false
+		sg.grant <- struct{}{}
+		<-s.wake
+	}
+}
